@@ -19,6 +19,14 @@ Theorem C16_refines : forall c pool h o,
   Inv c w /\ step_spec c w o (step c None w o).
 Proof. exact history_refines. Qed.
 
+(* update() / commit() called on an element nested in a stored Identifiable (a Property of a Submodel) reach
+   the backend as update_object / commit_object of that Identifiable: one request, the whole replica is
+   refreshed / written.  In the model they ARE those calls, so every theorem about Update / Commit below (no
+   lost update, fresh commit visible, faults) holds for them as well, and step_spec specifies them as such. *)
+Theorem C16_child_calls : forall c f w x,
+  step c f w (UpdateChild x) = step c f w (Update x) /\ step c f w (CommitChild x) = step c f w (Commit x).
+Proof. intros c f w x. exact (conj eq_refl eq_refl). Qed.
+
 (* No lost update: in ANY state (whatever a second actor did to the server), a commit from a replica
    whose recorded revision is not the document's current one (or whose document is gone) raises
    CouchDBConflictError and changes nothing - neither the server nor the client. *)
